@@ -115,6 +115,8 @@ def _parse_extensions(value: t.Optional[str]) -> t.Dict[str, t.List[str]]:
     while value:
         key, remaining = value.lstrip(" ").split(" ", 1)
         key = key[2:]
+        # More than one space (SP = 1*SPACE) can separate the name and value.
+        remaining = remaining.lstrip(" ")
 
         entries: t.List[str] = []
         if remaining.startswith("("):
